@@ -87,6 +87,7 @@ type WorkerOut struct {
 	Oracles    map[string]int    `json:"violations_by_signature"`
 	Violations []ViolationRecord `json:"violations"`
 	Samples    []string          `json:"samples"`
+	SiteHits   map[string]uint64 `json:"site_hits,omitempty"`
 	HashFile   string            `json:"hash_file"`
 	Distinct   int               `json:"distinct_local"`
 	WallS      float64           `json:"wall_s"`
@@ -382,6 +383,7 @@ func Main(t *testing.T, h Harness) {
 		}
 	}
 	wo.Distinct = len(hashes)
+	wo.SiteHits = simrt.SiteHits()
 	if out != "" {
 		hs := make([]uint64, 0, len(hashes))
 		for k := range hashes {
